@@ -50,7 +50,9 @@ def exec_node(spec, cb, me):
         return ("ret", nid, tuple(results))
     if outcome == "raiseV":
         raise ValueError(nid, "v")
-    raise KeyError(nid)
+    # an exception whose data lives outside args and outside the instance dict (C-level attributes), like the ones a remote
+    # open() or generator produce: whoever catches it further up reads errno / filename
+    raise FileNotFoundError(2, "k%d" % nid, "file%d" % nid)
 
 
 class PeerA(_rpyc.Service):
@@ -104,7 +106,7 @@ def norm_exc(e):
         if c.__module__ == "builtins":
             name = c.__name__
             break
-    return ("E", name, tuple(e.args))
+    return ("E", name, tuple(e.args), getattr(e, "errno", None), getattr(e, "filename", None), getattr(e, "strerror", None))
 
 
 def run_local(spec):
